@@ -80,7 +80,8 @@ def make_callable(m, is_async, log):
     """Returns (callable_or_viewclass, is_view)."""
     sig = m['sig']
     body = m['body']
-    coro = m.get('coro', is_async) and is_async
+    # is_async: False | True | 'plain' (the asynchronous dispatcher serving plain, non-coroutine functions)
+    coro = bool(is_async) and m.get('coro', True) and (is_async != 'plain' or bool(m.get('yields')))
     ns = {'HLOG_': log, 'HEXC_': EXC_TABLE, 'pjrpc': pjrpc, 'UNSET': UNSET, 'HBODY_': body, 'HNAME_': m['name']}
     view = m['ctx'][0] == 'view'
     env = env_expr(sig)
@@ -99,6 +100,13 @@ def make_callable(m, is_async, log):
         lines.append('    return HBODY_[1]')
     elif body[0] == 'rpc':
         lines.append('    raise pjrpc.exceptions.JsonRpcError(code=HBODY_[1], message=HBODY_[2], data=(UNSET if HBODY_[3] == "<unset>" else HBODY_[3]))')
+    elif body[0] == 'rpcargs':
+        # ONE long-lived error object per method (a module-level constant in user code): its fields are set from the
+        # arguments of the call and it is raised again
+        ns['HERR_'] = pjrpc.exceptions.JsonRpcError(code=1, message='initial')
+        lines.append('    HERR_.code, HERR_.message = code, message')
+        lines.append('    HERR_.data = UNSET if data == %r else data' % DEFAULT)
+        lines.append('    raise HERR_')
     else:
         lines.append('    raise HEXC_[HBODY_[1]]()')
     kw = 'async def' if coro else 'def'
@@ -359,6 +367,8 @@ def cbody(b):
         return '(BRet %s)' % cjson(b[1])
     if b[0] == 'rpc':
         return '(BRpc %s %s %s)' % (cZ(b[1]), cstr(b[2]), 'None' if b[3] == '<unset>' else '(Some %s)' % cjson(b[3]))
+    if b[0] == 'rpcargs':
+        return 'BRpcArgs'
     return '(BExc %d)' % b[1]
 
 
